@@ -953,7 +953,6 @@ func typeAssert(i *interpreter, instr *ssa.TypeAssert, itf iface) value {
 
 // This variable is no longer used but remains to prevent build breakage.
 
-
 // callBuiltin interprets a call to builtin fn with arguments args,
 // returning its result.
 func callBuiltin(caller *frame, callpos token.Pos, fn *ssa.Builtin, args []value) value {
